@@ -110,6 +110,7 @@ class GenericGen:
         it.params = list(params)
         uses = {}
         fields = []
+        flattened = set()
         for p in params:
             form, ty = self.param_use(params, p)
             uses[p] = form
@@ -120,7 +121,9 @@ class GenericGen:
                 if pres == "inline":
                     f.inline = True
                     uses[p] += "+inline"
-                elif pres == "flatten" and ty.item.kind == "named":
+                elif pres == "flatten" and ty.item.kind == "named" and ty.item.id not in flattened:
+                    # (the same struct flattened twice would put its keys into the object twice)
+                    flattened.add(ty.item.id)
                     f.flatten = True
                     uses[p] += "+flatten"
             if form == "option" and kind == "named" and r.random() < 0.5:
